@@ -56,7 +56,9 @@ Fixpoint bx6_aux (l : list byte) : list N :=
   | _ => []
   end.
 Definition bx6 (s : bstr) : list N := match s with BStr l => bx6_aux l end.
-Definition sub (d : list N) (off n : nat) : list N := firstn n (skipn off d).
+Definition sub (d : list N) (off n : N) : list N := firstn (N.to_nat n) (skipn (N.to_nat off) d).
+Definition nats (l : list N) : list nat := map N.to_nat l.
+Definition natps (l : list (N * N)) : list (nat * nat) := map (fun p => (N.to_nat (fst p), N.to_nat (snd p))) l.
 '''
 
 
@@ -381,7 +383,7 @@ def _coq_err(kind):
 
 
 def _nat_list(xs):
-    return '[' + '; '.join(str(x) for x in xs) + ']%nat'
+    return '(nats [' + '; '.join(str(x) for x in xs) + '])'
 
 
 def _cps(cps):
@@ -399,7 +401,7 @@ def _opt(x, f):
 def _rest_expr(stream, rest):
     """the unread bytes, as a suffix of the stream literal when they are one"""
     if rest and stream.endswith(rest):
-        return '(skipn %d s)' % ((len(stream) - len(rest)) // 2)
+        return '(skipn (N.to_nat %d) s)' % ((len(stream) - len(rest)) // 2)
     return _b(rest)
 
 
@@ -470,7 +472,7 @@ def coq_checks(case, res):
                 evs.append('EvDataClose')
         o = res['outcome']
         outcome = '(Ok (%d, %s))' % (o['ok'][0], _b(o['ok'][1])) if 'ok' in o else '(Err %s)' % _coq_err(o['err'])
-        net = '[' + '; '.join('(%d, %d)' % (a, b) for a, b in case.get('net') or []) + ']%nat'
+        net = '(natps [' + '; '.join('(%d, %d)' % (a, b) for a, b in case.get('net') or []) + '])'
         out.append(('let d := %s in check_visit %d (%s) %s %s (mkConn [] %s %s) (mkConn [] d %s) %s [%s] %s' % (
             _b(case['data']), case.get('limit', LIMIT), q, 'true' if case['fresh'] else 'false', cached,
             _b(case['ctrl']), _nat_list([n - 1 for n in case['ctrl_segs'] if n > 0]),
@@ -568,13 +570,14 @@ def _diff_seg(case, res):
         if run != first:
             c = dict(case)
             c['seglists'] = [case['seglists'][0], lens]
+            c['observed'] = [first, run]
             return c
     return _slim(case)
 
 
 def _impl(cases, shard=120):
     chunks = [cases[i:i + shard] for i in range(0, len(cases), shard)]
-    outs = common.run_impl_sharded('c17_impl.py', [{'cases': c} for c in chunks])
+    outs = common.run_impl_sharded('c17_impl.py', [{'cases': c} for c in chunks], par=6)
     res = []
     for o in outs:
         res += o['results']
@@ -590,7 +593,10 @@ def correspondence(ctx):
     cases += gen_cmd_cases(r, 150 if not th else 1500)
     cases += gen_addr_cases(r, 120 if not th else 1500)
     cases += gen_parse_cases(r, 80 if not th else 800)
+    import time
+    t0 = time.time()
     results = _impl(cases)
+    t_impl = time.time() - t0
 
     checks = []          # (expr, case index, label)
     for i, (c, res) in enumerate(zip(cases, results)):
@@ -607,7 +613,18 @@ def correspondence(ctx):
         files.append(heavy[i:i + 3])
     bodies = [HEADER + 'Definition checks : list bool := [\n  ' + ';\n  '.join(x[0] for x in f) +
               '].\nEval vm_compute in (failing checks).\n' for f in files]
-    outs = common.coq_eval_many(bodies, timeout=900)
+    t0 = time.time()
+    ftimes = []
+
+    def _ev(b):
+        t = time.time()
+        x = common.coq_eval(b, 900)
+        ftimes.append(round(time.time() - t, 1))
+        return x
+    from concurrent.futures import ThreadPoolExecutor
+    with ThreadPoolExecutor(max_workers=6) as ex:
+        outs = list(ex.map(_ev, bodies))
+    t_coq = time.time() - t0
     disagreements = []
     for f, (rc, out) in zip(files, outs):
         fails = common.parse_vm_list(out) if rc == 0 else None
@@ -666,6 +683,7 @@ def correspondence(ctx):
         'outcome_distribution': outcomes,
         'urls_rejected_by_parser': skipped,
         'coq_files': len(files),
+        'timing_s': {'impl': round(t_impl, 1), 'coq_eval_wall': round(t_coq, 1), 'coq_eval_per_file': sorted(ftimes)},
         'disagreements': disagreements,
         'impl_violations': violations(cases, results),
     }
